@@ -286,7 +286,7 @@ func termVars(t *Term) map[int]bool {
 		return m
 	}
 	m := map[int]bool{}
-	if t.op == "v" {
+	if t.op == "v" && t.name != "PI" {
 		m[t.id] = true
 	}
 	for _, a := range t.args {
